@@ -181,6 +181,8 @@ impl<A: Ord + Clone> CmRDT for VClock<A> {
     open spec fn cm_pre(&self, op: &Dot<A>) -> bool { true }
     open spec fn cm_post(old_: &Self, op: &Dot<A>, new_: &Self) -> bool { true }
     open spec fn cm_vpre(&self, op: &Dot<A>) -> bool { true }
+    open spec fn cm_vhyp() -> bool { actor_ok::<A>() }
+    open spec fn cm_vflag(&self, op: &Dot<A>) -> bool { op.counter > cnt(self@, op.actor) + 1 }
 
 //@extract fn src/vclock.rs "CmRDT for VClock" validate_op
     fn validate_op(&self, dot: &Self::Op) -> /*@ (r: @*/ Result<(), Self::Validation> /*@ ) @*/
@@ -219,6 +221,8 @@ impl<A: Ord + Clone> CvRDT for VClock<A> {
     open spec fn cv_inv(&self) -> bool { actor_ok::<A>() ==> nz(self@) }
     open spec fn cv_pre(&self, other: &Self) -> bool { true }
     open spec fn cv_post(old_: &Self, other: &Self, new_: &Self) -> bool { true }
+    open spec fn cv_vhyp() -> bool { true }
+    open spec fn cv_flag(&self, other: &Self) -> bool { false }
 
 //@extract fn src/vclock.rs "CvRDT for VClock" validate_merge
     fn validate_merge(&self, _other: &Self) -> /*@ (r: @*/ Result<(), Self::Validation> /*@ ) @*/
